@@ -92,9 +92,42 @@ where
     if lc != cnt {
         t.closure_fail = Some((format!("closure:label_count:{}", api), format!("label_count {} but iter yields {}", lc, cnt)));
     }
+    // the name's own octets as the label iterator gives them: every suffix is a tail of these
+    let mut by_iter: Vec<u8> = Vec::new();
+    let mut tails: Vec<usize> = Vec::new();
+    for l in n.iter() {
+        tails.push(by_iter.len());
+        by_iter.push(l.len() as u8);
+        by_iter.extend_from_slice(l.as_slice());
+    }
+    // a suffix handed out by iter_suffixes / parent / split_first is a name like any other: flattened, composed and
+    // compared it is the tail of the name it came from
+    fn suffix_check<P: ToName + std::hash::Hash>(s: &P, k: usize, tails: &[usize], by_iter: &[u8]) -> Result<(), String> {
+        use domain::base::name::ToLabelIter;
+        let want = match tails.get(k) { Some(p) => &by_iter[*p..], None => return Err(format!("suffix {} of a name with {} labels", k, tails.len())) };
+        let f: Name<Vec<u8>> = s.to_vec();
+        if f.as_slice() != want {
+            return Err(format!("suffix {} flattens to {}, the name's tail is {}", k, hex(f.as_slice()), hex(want)));
+        }
+        let mut b = Vec::new();
+        let _ = s.compose(&mut b);
+        if b != want {
+            return Err(format!("suffix {} composes to {}, the name's tail is {}", k, hex(&b), hex(want)));
+        }
+        let wn = Name::from_octets(want.to_vec()).map_err(|_| format!("tail {} is not a name", k))?;
+        if !s.name_eq(&wn) || s.name_cmp(&wn) != std::cmp::Ordering::Equal || hash64(s) != hash64(&wn) || s.compose_len() as usize != want.len() || s.iter_labels().count() != tails.len() - k {
+            return Err(format!("suffix {} ({}) does not compare equal to / count like the name's tail {}", k, hex(f.as_slice()), hex(want)));
+        }
+        Ok(())
+    }
     step("ParsedName::iter_suffixes");
     let mut ns = 0;
     for s in n.iter_suffixes() {
+        if ns < NAME_LABEL_CAP {
+            if let Err(e) = suffix_check(&s, ns, &tails, &by_iter) {
+                t.closure_fail = Some((format!("closure:suffix:iter_suffixes:{}", api), e));
+            }
+        }
         ns += 1;
         let _ = s.label_count();
         if ns > NAME_LABEL_CAP {
@@ -111,6 +144,11 @@ where
             t.cap_fail = Some((format!("cap:ParsedName::split_first:{}", api), "split_first does not reach the root".into()));
             return;
         }
+        if guard < tails.len() {
+            if let Err(e) = suffix_check(&c, guard, &tails, &by_iter) {
+                t.closure_fail = Some((format!("closure:suffix:split_first:{}", api), e));
+            }
+        }
     }
     let mut c = n.clone();
     let mut guard = 0;
@@ -119,6 +157,11 @@ where
         if guard > NAME_LABEL_CAP {
             t.cap_fail = Some((format!("cap:ParsedName::parent:{}", api), "parent does not reach the root".into()));
             return;
+        }
+        if guard < tails.len() {
+            if let Err(e) = suffix_check(&c, guard, &tails, &by_iter) {
+                t.closure_fail = Some((format!("closure:suffix:parent:{}", api), e));
+            }
         }
     }
     step("ParsedName::to_vec");
